@@ -190,6 +190,42 @@ PROPS = {
         note=KERNEL_NOTE + ' Exact rational / integer arithmetic of CPython is the oracle; the enumerated domain is written into evidence.coverage.rule.',
         explanation='deductive contracts for the libmpf helpers; the context-level functions are covered only by the bounded tier (coverage.engine_boundedprops)',
         technique='deductive VCs for libmpf helpers + bounded native check of the context-level functions'),
+    'C12': dict(
+        title='elementary functions are accurate to the working precision', level='exploration', engines=['boundedprops'], no_units=True,
+        claim='Bounded only (real arguments, real results): the contract |f(x) - F(x)| < 2^(4-p)|F(x)| evaluated natively for exp, log '
+              '(bases e, 2, 10), sqrt, cbrt, root, power, sin, cos, tan, sec, csc, cot, sinh, cosh, tanh, asin, acos, atan, asinh, acosh, '
+              'atanh, atan2, hypot, log1p, expm1, sinpi, cospi on a grid of mantissa/exponent combinations, doubles nearest k*pi/2, the '
+              'classical worst case for double reduction, 1 +- 2^-k, at precisions 10..601 (quick) / 10..4000 incl. the 400/600/2500/3000 '
+              'thresholds (thorough), plus root(x, 5..10) over a band of precisions 2990..3095. Found and repaired: acosh near 1 (F14), '
+              'nthroot near 3000 bits (F18). Not covered: complex arguments, arg, expj, expjpi, powm1, sinc.',
+        note='Reference: the system MPFR through ctypes (trusted), two directed evaluations at p+80 bits; the enumerated domain is written into evidence.coverage.rule. Complex arguments, and functions MPFR does not provide, are not covered.', technique='bounded native check of the accuracy contract against a rigorous MPFR enclosure (stand-in, not a proof)'),
+    'C13': dict(
+        title='exact cases and special values of elementary functions', level='exploration', engines=['boundedprops'], no_units=True,
+        claim='Bounded only: exact points of 21 functions; sqrt, cbrt and root(x**k, k) of seeded mantissas of 1..prec bits are exact; '
+              'sinpi/cospi at integers and half-integers up to 10^30; powm1 unit cases; tan, cot, sec, csc are finite and accurate at the '
+              '5 p-bit numbers around k*pi/2; inf/nan limits. (The remainder test of mpf_sqrt -- sqrtrem -- is under contract in C02/C01.)',
+        note='Reference: the system MPFR through ctypes (trusted), two directed evaluations at p+80 bits; the enumerated domain is written into evidence.coverage.rule. Complex arguments, and functions MPFR does not provide, are not covered.', technique='bounded native check against exact values and a rigorous MPFR enclosure (stand-in, not a proof)'),
+    'C17': dict(
+        title='mathematical constants at every precision and history', level='exploration', engines=['boundedprops'], no_units=True,
+        claim='Bounded only: pi, e, ln2, ln10, phi, degree are the correctly rounded p-bit values and euler, catalan, apery are within '
+              'one ulp for every precision 1..700 (quick, thinned above 130) / 1..3300 (thorough), all five rounding modes on the correct '
+              'side, in three request histories (ascending, descending, seeded random with repeats) with the memo caches reset in between. '
+              'Not covered: khinchin, glaisher, twinprime, mertens (no independent reference in this sandbox).',
+        note='Reference: the system MPFR through ctypes (trusted), two directed evaluations at p+80 bits; the enumerated domain is written into evidence.coverage.rule. Complex arguments, and functions MPFR does not provide, are not covered.', technique='bounded native check of every precision in a range and three cache histories against a rigorous MPFR enclosure (stand-in, not a proof)'),
+    'C18': dict(
+        title='gamma-family functions are accurate', level='exploration', engines=['boundedprops'], no_units=True,
+        claim='Bounded only (real arguments): relative error below 2^(8-p) for gamma, rgamma, loggamma (x > 0), digamma, factorial, '
+              'beta on a grid incl. half-integers and points 2^-10 / 2^-40 from the poles; rgamma is exactly 0 and gamma raises at the '
+              'poles. Repaired: digamma near negative poles (F16). Known finding F17: digamma has only absolute accuracy near its zero '
+              '1.46163... Not covered: complex arguments, fac2, binomial, rf, ff, gammaprod, polygamma, harmonic, barnesg, superfac, hyperfac.',
+        note='Reference: the system MPFR through ctypes (trusted), two directed evaluations at p+80 bits; the enumerated domain is written into evidence.coverage.rule. Complex arguments, and functions MPFR does not provide, are not covered.', technique='bounded native check of the accuracy contract against a rigorous MPFR enclosure (stand-in, not a proof)'),
+    'C20': dict(
+        title='error, exponential and incomplete gamma integrals are accurate', level='exploration', engines=['boundedprops'], no_units=True,
+        claim='Bounded only (real arguments): relative error below 2^(8-p) for erf, erfc (incl. tails), ei, e1 (x > 0) and the upper '
+              'incomplete gamma function on a grid 2^-80..2^8. Known finding F15: gammainc(a, x) for non-integer a < -20 is wrong by '
+              'orders of magnitude (premature termination of the 1F1 series). Not covered: complex arguments, erfi, erfinv, npdf, ncdf, '
+              'expint, li, si, ci, shi, chi, fresnel, generalized/regularized/lower gammainc, betainc.',
+        note='Reference: the system MPFR through ctypes (trusted), two directed evaluations at p+80 bits; the enumerated domain is written into evidence.coverage.rule. Complex arguments, and functions MPFR does not provide, are not covered.', technique='bounded native check of the accuracy contract against a rigorous MPFR enclosure (stand-in, not a proof)'),
     'C11': dict(
         title='working precision restored on every exit', level='proof', engines=['precframe'], no_units=True,
         claim='For every function, method, nested function and lambda in mpmath (outside tests and libmp; 1093 on this tree) '
@@ -205,13 +241,8 @@ PROPS = {
 }
 
 NOT_APPLICABLE = {
-    'C12': 'accuracy of elementary functions is a real-analysis statement (truncation + rounding error of series/Newton kernels); no contract within reach decides it',
-    'C13': 'not built yet (special-value entry paths)',
     'C15': 'not built yet (libmpi complex contracts)',
-    'C17': 'not built yet (constant_memo contract)',
-    'C18': 'accuracy of gamma-family functions is analytic; not decidable by contracts over integers',
     'C19': 'accuracy of zeta-family evaluations (Borwein / Euler-Maclaurin / Riemann-Siegel) is analytic',
-    'C20': 'accuracy of error/exponential/incomplete-gamma integrals is analytic',
     'C21': 'accuracy of Bessel/Airy families is analytic (hypercomb cancellation heuristics, asymptotic switches)',
     'C22': 'accuracy of hypergeometric functions / orthogonal polynomials is analytic',
     'C23': 'accuracy of elliptic/theta/modular/AGM/Lambert W is analytic',
